@@ -42,6 +42,16 @@ def guards(sql: str) -> Set[str]:
     return out
 
 
+NEUTRAL_FUNCS = {"CAST", "TRY_CAST", "NULLIF", "REPLACE", "REGEXP_MATCHES", "ERROR", "FLOOR", "COALESCE", "LENGTH"}
+
+
+def value_changing(sql: str) -> Set[str]:
+    """names of the functions applied in a load expression other than casts, the empty-string/quote conventions of CSV and the
+    rejecting guards (those are compared by R18.2)"""
+    return {m.group(1).upper() for m in re.finditer(r"\b([A-Za-z_][A-Za-z_0-9]*)\s*\(", sql) if m.group(1).upper() not in NEUTRAL_FUNCS
+            and m.group(1).upper() not in ("CASE", "WHEN", "AND", "OR", "NOT", "IN", "THEN", "ELSE", "AS", "DECIMAL", "VARCHAR")}
+
+
 def run(rep: Report, tier: str) -> None:
     P = program()
     rep.explanation = ("CFG must-pass-through rules on the three loaders; the per-type SQL of the CSV and the DataFrame/Parquet SELECT builders "
@@ -49,7 +59,8 @@ def run(rep: Report, tier: str) -> None:
                        "and compared for rejecting guards and for the conversion chain of Number.")
     for rid, text in [("R18.1", "all loaders: build_create_table_sql → INSERT → _validate_loaded_table; errors mapped, table dropped"),
                       ("R18.2", "same rejecting guards per component type in the CSV and DataFrame/Parquet SELECT builders"),
-                      ("R18.3", "Number is converted from text in every loader")]:
+                      ("R18.3", "Number is converted from text in every loader"),
+                      ("R18.5", "the same text is stored as the same value: CSV and DataFrame/Parquet builders apply the same value-changing functions per component type")]:
         rep.rule(rid, text)
     # ---- R18.1 -------------------------------------------------------------------------------------------
     for ln in ("load_datapoints_duckdb", "_load_parquet", "register_dataframes"):
@@ -109,6 +120,13 @@ def run(rep: Report, tier: str) -> None:
                                 f"component type {t}: the CSV loader applies rejecting guard(s) {only_csv or '—'} that the DataFrame/Parquet loader "
                                 f"does not, and the DataFrame/Parquet loader applies {only_df or '—'} that the CSV loader does not; the same value "
                                 f"is rejected in one input form and accepted (possibly altered) in the other"))
+            # R18.5: the VALUE stored for the same text is the same in both loaders (value-changing functions applied to the column)
+            vc_csv, vc_df = value_changing(csv_sql), value_changing(df_sqls["VARCHAR"])
+            rep.instance("R18.5", key, nontrivial=True, sample={"csv": sorted(vc_csv), "dataframe": sorted(vc_df)})
+            if vc_csv != vc_df:
+                rep.add(Finding("R18.5", f"R18.5/{t}/nullable={nullable}", f_csv.module.rel, f_csv.node.lineno, f_csv.qualname,
+                                f"component type {t}: the CSV loader stores the value through {sorted(vc_csv) or 'no function'} and the DataFrame/Parquet loader through "
+                                f"{sorted(vc_df) or 'no function'}: the same text (e.g. a lower-case or blank-padded value) is stored - and accepted or rejected - differently depending on the input form"))
             if t == "Number":
                 for st, sql in df_sqls.items():
                     rep.instance("R18.3", f"Number/source={st}", nontrivial=True, sample={"source_type": st, "sql": sql})
